@@ -71,6 +71,7 @@ ASSUMPTIONS = [
 ]
 
 RT = 1e-12            # float64, per-box statistics relative to the box's pixel magnitude: summation order only (measured <= 5.6e-15)
+RT_FIXED_M = 1e-9     # float64, biweight estimators with user-fixed M (measured 1.9e-12)
 RT_PAIR = 1e-10       # float64, between bottleneck configurations / byte orders (measured <= 1.9e-11 of the value)
 RT32_BKG = 5e-4       # float32 / integer input, background statistic relative to the box's pixel magnitude: measured <= 3.4e-6
 RT32_RMS = 1e-5       # same for the RMS statistic: measured <= 4.8e-8
@@ -366,6 +367,13 @@ def run_case(case):
         if v.size:
             sbox[j, i] = max(float(np.max(np.abs(v))), 1e-300)
     rt_b, rt_r = (RT, RT) if dt == 'float64' else (RT32_BKG, RT32_RMS)
+    if dt == 'float64':
+        # a biweight estimator with a user-fixed location M (weights (1-u^2)^2 around a centre that is not the
+        # data's) is ill-conditioned: measured 1.9e-12, all other estimators <= 5.6e-15
+        if 'M' in spec['bkg'][1]:
+            rt_b = RT_FIXED_M
+        if 'M' in spec['rms'][1]:
+            rt_r = RT_FIXED_M
 
     def cmp_boxes(sel, m, pre=''):
         if not sel.any():
@@ -470,6 +478,8 @@ def run_case(case):
                 else float(0.5 * (vals[k] + vals[k + 1]))
             if thr in vals:
                 mode = 'tie'
+        if mode != 'tie' and float(np.min(np.abs(vals - thr))) <= (1e-12 if dt == 'float64' else 1e-5) * scale:
+            mode = 'tie'          # within rounding of a mesh value (e.g. between two interpolated boxes one ulp apart)
         if dt == 'float32':
             # the library compares the float32 mesh with the threshold in float32: use a representable threshold
             thr = float(np.float32(thr))
@@ -795,7 +805,12 @@ def _rel_constant(case, spec, meta, nraw, N, mech, is_int):
     if is_int and tol != 0.0:
         # integer input with interpolated boxes: the library casts the interpolated float mesh to the integer
         # dtype; within one count is demanded here, exact reproduction under its own mechanism key
+        unclipped = spec['interp'][0] == 'zoom' and not spec['interp'][1].get('clip', True)
         for name, obs, val in exp:
+            if unclipped and name.startswith('background'):
+                # an unclipped spline over a mesh that is off by one count overshoots the mesh range (by design)
+                case.note('constant_int_map_skipped_unclipped_spline')
+                continue
             case.close(_fl(obs), np.full(np.shape(obs), val), 'constant_' + name + '_int_within_one', atol=1.0, mech=m)
         ok = all(bool(np.all(_fl(obs) == val)) for name, obs, val in exp)
         case.check(ok, 'constant_int_exact', dict(mech, int_cast_truncates_interpolated=True), const=c_eff,
